@@ -773,6 +773,31 @@ def gen_family(rng, fx):
     return pre, group, follow
 
 
+def corpus_cases(fx):
+    """crash cases that run first in every run, whatever the seed: (name, pre, group, followups)"""
+    def up(k):
+        return {"op": "blob", "digest": "sha256:" + sha(fx.data[k]), "data": fx.data[k].hex(), "_fx": k}
+    base = [up("g0"), {"op": "create", "name": "m0", "files": {"model.gguf": "sha256:" + sha(fx.data["g0"])}, "_fx": "g0", "system": c04.SYSTEMS[0]}]
+    det = fx.det_bytes[("gt", 3)].decode()
+    return [
+        # create from a GGUF with an auto-detected chat template, TEMPLATE given: setTemplate drops the detected layer (a blob
+        # nothing else uses: a file-system effect), then makes the new one; the order of the two is visible at the crash points
+        ("create-files-template-override", base,
+         [up("gt"), {"op": "create", "name": "tpl", "files": {"model.gguf": "sha256:" + sha(fx.data["gt"])}, "_fx": "gt",
+                     "template": c04.TEMPLATES[1], "system": c04.SYSTEMS[1]}],
+         [{"op": "create", "name": "tpl2", "from": "tpl", "template": c04.TEMPLATES[0]}]),
+        # ... TEMPLATE equal to the detected one: the layer that is dropped is the layer that is made
+        ("create-files-template-same-as-detected", base,
+         [up("gt"), {"op": "create", "name": "tpl", "files": {"model.gguf": "sha256:" + sha(fx.data["gt"])}, "_fx": "gt", "template": det}],
+         [{"op": "create", "name": "tpl2", "from": "tpl", "system": c04.SYSTEMS[2]}]),
+        # template, system and parameters over a GGUF that brings its own template (all of create's set* steps in one run)
+        ("create-files-all-overrides", base,
+         [up("gz"), {"op": "create", "name": "example.com/ns/all:t", "files": {"model.gguf": "sha256:" + sha(fx.data["gz"])}, "_fx": "gz",
+                     "template": c04.TEMPLATES[2], "system": c04.SYSTEMS[0], "parameters": c04.PARAMS[2], "license": c04.LICENSES[0]}],
+         [{"op": "delete", "name": "m0"}]),
+    ]
+
+
 def gen_group(rng, fx, klass, state):
     """the operation (group) to crash, aimed at what the store really holds"""
     stored = ["%s/%s/%s:%s" % tuple(m["path"].split("/")) for m in state["manifests"] if m["readable"]]
@@ -856,7 +881,10 @@ def run(ctx):
     if os.environ.get("C12_PLAN"):   # (development: only cases of one class)
         plan = []
     plan += ["pull2"] * (4 if ctx.quick() else 60)   # the new pull path (chunked downloads, scratch files, chunk records)
-    fams = {i: (gen_family(rng, fx) if k == "family" else gen_pull2_case(rng, fx)) for i, k in enumerate(plan) if k in ("family", "pull2")}
+    corpus = corpus_cases(fx)
+    plan = ["corpus:" + c[0] for c in corpus] + plan      # first in every run
+    fams = {i: (corpus[i][1:] if k.startswith("corpus:") else gen_family(rng, fx) if k == "family" else gen_pull2_case(rng, fx))
+            for i, k in enumerate(plan) if k in ("family", "pull2") or k.startswith("corpus:")}
     pres = [fams[i][0] if i in fams else gen_pre(rng, fx) for i, _ in enumerate(plan)]
     pobs, err = c04.run_histories(ctx, binp, pres, noapi=True)
     if pobs is None:
